@@ -512,10 +512,40 @@ pub fn run_lines(lines: &[String], oracles: bool) -> RunResult {
                         sys.spec_persisted = sys.spec.clone();
                         sys.last_pm = pm_text.clone();
                         sys.last_ps = ps_text.clone();
-                        let pm: PersistedMetadata = serde_json::from_str(&pm_text).expect("metadata round trip");
+                        let mut pm: PersistedMetadata = serde_json::from_str(&pm_text).expect("metadata round trip");
                         let ps: PersistedSpans = serde_json::from_str(&ps_text).expect("spans round trip");
+                        let cold = mode.strip_prefix("cold:");
+                        if let Some(nonce) = cold {
+                            // "cold start": the state is brought up in a process that has never seen these
+                            // call sites (their names get a fresh suffix) and *before* the host is installed
+                            let mut tree: serde_json::Value = serde_json::from_str(&pm_text).expect("metadata JSON");
+                            if let Some(map) = tree.as_object_mut() {
+                                for (_, site) in map.iter_mut() {
+                                    if let Some(name) = site.get("name").and_then(|n| n.as_str()).map(str::to_owned) {
+                                        site["name"] = serde_json::Value::String(format!("{name}#{nonce}"));
+                                    }
+                                }
+                            }
+                            pm = serde_json::from_value(tree).expect("renamed metadata decodes");
+                            for site in sys.spec.known.values_mut() {
+                                site.name = format!("{}#{nonce}", site.name);
+                            }
+                            sys.spec_persisted = sys.spec.clone();
+                        }
                         match mode {
                             "keep" => {}
+                            m if m.starts_with("cold:") => {
+                                {
+                                    let st = sys.host.state.lock().unwrap();
+                                    let open: Vec<u64> = st.news.iter().map(|n| n.0).filter(|h| !st.closed.contains(h)).collect();
+                                    drop(st);
+                                    sys.forgotten.extend(open);
+                                }
+                                had_loss = true;
+                                sys.map_lost = true;
+                                sys.has_host.clear();
+                                sys.presented.clear();
+                            }
                             "lose" => {
                                 {
                                     let st = sys.host.state.lock().unwrap();
@@ -540,12 +570,16 @@ pub fn run_lines(lines: &[String], oracles: bool) -> RunResult {
                             _ => rr.out.obs.push("bad-op".into()),
                         }
                         let local = if mode == "keep" { local } else { LocalSpans::default() };
-                        sys.recv = Some(dispatcher::with_default(&sys.dispatch, || TracingEventReceiver::new(pm, ps, local)));
+                        sys.recv = Some(if cold.is_some() {
+                            TracingEventReceiver::new(pm, ps, local) // no host installed yet
+                        } else {
+                            dispatcher::with_default(&sys.dispatch, || TracingEventReceiver::new(pm, ps, local))
+                        });
                         rr.out.obs.extend(sys.host.take_log());
                         sys.born.clear();
                         sys.lifetime_stack = sys.host.state.lock().unwrap().stack.clone();
                         seg_start = i + 1;
-                        rr.out.tags.push(format!("persist:{mode}"));
+                        rr.out.tags.push(format!("persist:{}", if cold.is_some() { "cold" } else { mode }));
                     }
                     "discard" | "drop" => {
                         if entered_now > 0 {
@@ -909,6 +943,7 @@ impl Suite for Receiver {
         };
         let mut g = Guest::default();
         let mut snap = g.clone();
+        let (mut cold_n, mut cold_line) = (0usize, String::new());
         if focus == "C13" {
             // a host with a level filter; well-formed streams across kept / lost local maps
             lines.push(format!("host filter {}", rng.below(5)));
@@ -972,6 +1007,7 @@ impl Suite for Receiver {
                         }
                         let op = match kind {
                             5 => if quiescent { "h persist keep" } else { continue },
+                            8 if rng.chance(1, 4) => { cold_n += 1; cold_line = format!("h persist cold:{}x{cold_n}", rng.next() % 1_000_000); cold_line.as_str() }
                             8 => *rng.pick(&["h persist keep", "h persist keep", "h persist lose"]),
                             2 | 4 => *rng.pick(&["h discard", "h persist keep", "h persist lose", "h discard"]),
                             _ => *rng.pick(&["h persist keep", "h persist keep", "h persist lose", "h persist losenew", "h discard"]),
